@@ -48,6 +48,11 @@ def gen_case(rng, tier):
     if not endless:
         plan.append({"what": rng.choice(ENDS), "touch": [rng.randint(0, 3)] if c["incmap"] and rng.random() < 0.5 else []})
     c["plan"] = plan
+    if rng.random() < 0.06:
+        # preRun panics (a required ref parameter is missing): no attempt runs, the deferred cleanup does
+        c["pre_panic"] = True
+        c["cleanup"] = rng.randint(0, 4); c["after"] = rng.randint(0, 2); c["race"] = rng.choice([0, 0, 1, 2])
+        return c
     budget = rng.randint(0, 8)
     r = rng.random()
     if r < 0.08:
@@ -99,8 +104,9 @@ def nl(xs):
 def cfg_to_coq(c):
     atts = ["mkAtt 0 %s %s" % (WHAT[a["what"]], nl(a.get("touch", []) if c.get("incmap") else [])) for a in c["plan"]]
     leaves = ["false"] + [vlib.coq_bool(b) for b in c.get("leaves", [])]
-    return "(mkCfg (plan_of %s) false %s %d %s %d (fun _ => 0))" % (
-        vlib.coq_list(atts), vlib.coq_list(leaves), c.get("hashmap", 0), vlib.coq_bool(c.get("incmap", False)), c.get("nested", 0))
+    return "(mkCfg (plan_of %s) %s %s %d %s %d (fun _ => 0))" % (
+        vlib.coq_list(atts), vlib.coq_bool(c.get("pre_panic", False)), vlib.coq_list(leaves), c.get("hashmap", 0),
+        vlib.coq_bool(c.get("incmap", False)), c.get("nested", 0))
 
 
 def race_mode(r):
@@ -177,9 +183,17 @@ def oracle(c, r):
     for x in r["rerun"]:
         if x not in ("refused", "nil-norun"):
             fails.append(("second-run-" + x.split(":")[0].split("+")[0], "a further Run call was not refused: %s" % x)); break
+    if c.get("real"):
+        if r["closes"].get("net-listener-released") != 1:
+            fails.append(("real-mailbox-listener-not-released", "after Run returned the local mailbox's address cannot be bound again"))
+        if r["run_class"]:
+            fails.append(("real-run-result", "Run over FailureDetector + TCP mailbox stopped by Stop reported %s" % r["run_class"]))
+        if r.get("err"):
+            fails.append(("real-run-error", r["err"]))
+        return fails
     if r["started"] and r["run_returned"]:
         got = set(r["run_class"])
-        lw = r.get("last_what", "")
+        lw = "panic" if c.get("pre_panic") else r.get("last_what", "")
         want = set(EXPECT.get(lw, set()))
         if lw != "panic" and any(c.get("leaves", [])):
             want.add("close")
@@ -193,6 +207,8 @@ def canon(c):
 
 
 def nontrivial(c):
+    if c.get("real"):
+        return c["real"] >= 2
     return c.get("race", 0) + sum(b["k"] for b in c.get("body", [])) + c.get("cleanup", 0) >= 2
 
 
@@ -223,6 +239,9 @@ def run(ctx):
         cases = corpus()
         for i in range(n):
             cases.append(gen_case(rng, ctx.tier))
+        for i in range(3 if ctx.tier == "quick" else 30):
+            # real FailureDetector + local TCP mailbox under k Stops at once (oracle only, the model has no part in these)
+            cases.append({"real": rng.randint(1, 8), "plan": [], "rerun_at": -1})
     for i, c in enumerate(cases):
         c["id"] = i
         c.setdefault("rerun_at", -1)
@@ -237,6 +256,12 @@ def run(ctx):
         ctx.add_case(canon(c), nontrivial(c))
         for sig, what in oracle(c, r):
             ctx.failures.append({"signature": sig, "what": what, "case": c, "obs": r})
+        if c.get("real"):
+            dist["real_resource_cases"] = dist.get("real_resource_cases", 0) + 1
+            dist["max_stops"] = max(dist["max_stops"], r["stops_issued"])
+            continue
+        if c.get("pre_panic"):
+            dist["prerun_panic"] = dist.get("prerun_panic", 0) + 1
         dist["ends"][r.get("last_what") or "none"] = dist["ends"].get(r.get("last_what") or "none", 0) + 1
         dist["started" if r["started"] else "never_started"] += 1
         for ph in ("pre", "race", "cleanup", "after"):
@@ -254,22 +279,25 @@ def run(ctx):
     # tie B: the same phase script drives the model's LTS inside Coq
     if ctx.coq_ok:
         shard = 500
-        for s in range(0, len(cases), shard):
-            part = cases[s:s + shard]
+        mcases = [c for c in cases if not c.get("real")]
+        for s in range(0, len(mcases), shard):
+            part = mcases[s:s + shard]
             mm, out = model_mismatches(part, byid, "C17_cases_%d" % s)
             if mm is None:
                 ctx.breaks.append({"what": "correspondence evaluation C17_cases did not compile", "detail": out[-2000:]})
                 break
             if mm:
                 # timing can make a released Stop arrive late; re-run the differing cases once before calling it a break
-                again = [part[k] for k in mm]
+                again = [part[k] for k in mm][:40]   # more than that is not timing
                 rc2, by2, err2 = run_harness(again)
                 if rc2 == 0 and len(by2) == len(again):
                     mm2, out2 = model_mismatches(again, by2, "C17_retry_%d" % s)
-                    for k in (mm2 or []):
+                    for j, k in enumerate(mm2 or []):
                         c = again[k]
-                        rcm, outm, _ = vlib.coq_eval("C17_one", "From PGV Require Import C17.Model.\nEval vm_compute in predict repaired %s %s.\n"
-                                                     % (cfg_to_coq(c), script_to_coq(c, race_mode(by2[c["id"]]))))
+                        outm = ""
+                        if len(ctx.breaks) < 3:   # the model's prediction in full, for the first few only (one coqc each)
+                            rcm, outm, _ = vlib.coq_eval("C17_one", "From PGV Require Import C17.Model.\nEval vm_compute in predict repaired %s %s.\n"
+                                                         % (cfg_to_coq(c), script_to_coq(c, race_mode(by2[c["id"]]))))
                         ctx.breaks.append({"what": "correspondence C17/Model.v vs distsys/mpcalctx.go differs on a phase script (twice)",
                                            "case": c, "impl": by2[c["id"]], "model": outm.strip()[-1500:]})
                     ctx.extra["retried_cases"] = ctx.extra.get("retried_cases", 0) + len(again)
